@@ -9,7 +9,7 @@ from .gen import cfggen
 
 WORKER = "xv.impl.serial_worker"
 DRIVER = "Serial"
-TAGVALS = ["bm25", 1, 0.5, "x y", 3, True]
+TAGVALS = ["bm25", 1, 0.5, "x y", 3, True, 0, False]
 DATA_PAIRS = [("/XVDATA/q/model.bin", "/XVDATA/d/model.bin"), ("/XVDATA/q/weights.pt", "/XVDATA/d/weights.pt")]
 DATA_POOL = [f"/XVDATA/f{i}.bin" for i in range(8)] + [p for pair in DATA_PAIRS for p in pair]
 
